@@ -15,6 +15,7 @@ def run(c, idx, base):
     root = os.path.join(base, 'c%d' % idx)
     treelib.materialise(root, c['tree'], c.get('order_seed', 0), store=os.path.join(base, 'store%d' % idx))
     before = treelib.snapshot(root)
+    cleanup_raised = False
     argv = []
     for kind, rel in c['roots']:
         argv += [kind, os.path.join(root, *rel) if rel else root]
@@ -60,14 +61,18 @@ def run(c, idx, base):
         try:
             with redirect_stdout(io.StringIO()):
                 options = get_options(['prog'] + argv, [])
-                remove_stale_bytecode(options)
+                try:
+                    remove_stale_bytecode(options)
+                except Exception:
+                    # the cleanup itself failed: an observation (whatever it left behind is judged), not a harness error
+                    cleanup_raised = True
         finally:
             for name in loaded:
                 sys.modules.pop(name, None)
         ign = sorted(options.ignore_dir)
     after = treelib.snapshot(root)
     deleted = sorted(set(before) - set(after))
-    untouched = all(after[k] == before[k] for k in after if k in before) and not (set(after) - set(before))
+    untouched = not cleanup_raised and all(after[k] == before[k] for k in after if k in before) and not (set(after) - set(before))
     shutil.rmtree(root, ignore_errors=True)
     return {'deleted': [d.split(os.sep) for d in deleted], 'untouched': untouched, 'ign': ign}
 
